@@ -8,16 +8,19 @@ import common as C
 
 def strip_times(line):
     """drop the `~times` suffix of every record (times are compared relationally, C18)"""
-    if line.startswith("rep ") or line.startswith("recs "):
+    if line.startswith("rep ") or line.startswith("recs ") or line.startswith("elapsed "):
         return " ".join(tok.split("~")[0] for tok in line.split(" "))
     return line
 
 
-def _run_chunk(exe, mode, cases, timeout):
+def _run_chunk(exe, mode, cases, timeout, env=None):
     data = "mode %s\n" % mode
     for i, c in enumerate(cases):
         data += "case %d\n" % i + "\n".join(c) + "\n"
-    p = subprocess.run([exe], input=data, capture_output=True, text=True, timeout=timeout)
+    e = dict(os.environ)
+    if env:
+        e.update(env)
+    p = subprocess.run([exe], input=data, capture_output=True, text=True, timeout=timeout, env=e)
     out, cur = [], None
     for l in p.stdout.splitlines():
         if l == "case":
@@ -30,7 +33,21 @@ def _run_chunk(exe, mode, cases, timeout):
     return out
 
 
-def run_impl(cases, exe=None, jobs=12, timeout=3600):
+def split_times(outs):
+    """separates the ` @mono0:mono1:wall0:wall1` suffix written with FH_TIMES=1"""
+    plain, times = [], []
+    for o in outs:
+        if " @" in o:
+            a, _, b = o.rpartition(" @")
+            plain.append(a)
+            times.append(tuple(int(x) for x in b.split(":")))
+        else:
+            plain.append(o)
+            times.append(None)
+    return plain, times
+
+
+def run_impl(cases, exe=None, jobs=12, timeout=3600, env=None):
     exe = exe or C.bin_path("fh-seq")
     if not cases:
         return []
@@ -38,7 +55,7 @@ def run_impl(cases, exe=None, jobs=12, timeout=3600):
     size = (len(cases) + n - 1) // n
     chunks = [cases[i:i + size] for i in range(0, len(cases), size)]
     with cf.ThreadPoolExecutor(max_workers=n) as ex:
-        res = list(ex.map(lambda ch: _run_chunk(exe, "seq", ch, timeout), chunks))
+        res = list(ex.map(lambda ch: _run_chunk(exe, "seq", ch, timeout, env), chunks))
     return [c for ch in res for c in ch]
 
 
